@@ -150,6 +150,9 @@ def _can_hlo_be_distributed(hlo: HighLevelOp) -> bool:
                  or (hlo.binary_op in [BinaryOpType.ADD, BinaryOpType.SUB]
                      and isinstance(hlo.x1, Array)
                      and isinstance(hlo.x2, Array)
+                     # the sum of two Boolean arrays is their logical OR
+                     and not (hlo.x1.dtype.kind == "b"
+                              and hlo.x2.dtype.kind == "b")
                      and are_shapes_equal(hlo.x1.shape,
                                           hlo.x2.shape))))
 
